@@ -35,18 +35,20 @@ Lemma fs_read_cwd fs c1 c2 p : is_abs p = true -> fs_read fs c1 p = fs_read fs c
 Proof. intros H. unfold fs_read. rewrite (resolve_cwd fs c1 c2 p H). reflexivity. Qed.
 Lemma fs_exists_cwd fs c1 c2 p : is_abs p = true -> fs_exists fs c1 p = fs_exists fs c2 p.
 Proof. intros H. unfold fs_exists. rewrite (resolve_cwd fs c1 c2 p H). reflexivity. Qed.
+Lemma fs_isfile_cwd fs c1 c2 p : is_abs p = true -> fs_isfile fs c1 p = fs_isfile fs c2 p.
+Proof. intros H. unfold fs_isfile. rewrite (fs_read_cwd fs c1 c2 p H). reflexivity. Qed.
 Lemma base_dir_cwd c1 c2 p : is_abs p = true -> base_dir c1 p = base_dir c2 p.
 Proof. intros H. unfold base_dir, abs_comps. rewrite !(join_abs _ p H). reflexivity. Qed.
 
 Lemma lookup_cwd fs c1 c2 rel dirs : all_abs dirs -> lookup fs c1 rel dirs = lookup fs c2 rel dirs.
 Proof.
   induction 1 as [|d dirs Hd _ IH]; [reflexivity|]. cbn [lookup].
-  rewrite (fs_exists_cwd fs c1 c2 _ (join_keeps_abs d rel Hd)). rewrite IH. reflexivity.
+  rewrite (fs_isfile_cwd fs c1 c2 _ (join_keeps_abs d rel Hd)). rewrite IH. reflexivity.
 Qed.
 Lemma lookup_abs fs c rel dirs p : all_abs dirs -> lookup fs c rel dirs = Some p -> is_abs p = true.
 Proof.
   induction 1 as [|d dirs Hd _ IH]; cbn [lookup]; [discriminate|].
-  destruct (fs_exists fs c (join_path d rel)); [|exact IH].
+  destruct (fs_isfile fs c (join_path d rel)); [|exact IH].
   intros H. injection H as <-. apply join_keeps_abs. exact Hd.
 Qed.
 
